@@ -4,8 +4,10 @@ package main
 
 import (
 	"fmt"
+
 	"go/token"
 	"go/types"
+	"golang.org/x/tools/go/ssa"
 	"strconv"
 	"strings"
 	"time"
@@ -161,8 +163,42 @@ func init() {
 		return Tuple{Iface{T: ex.w.reflectValueType(), V: &Opaque{"reflect.Value"}}, false}
 	})
 
+	// ---- otto boundary: compile keeps the code, run is delegated to the harness's
+	// model of the script family (vhRunJS in harness/core) ----
+	reg(rulioPath+"/core.CompileJavascript", func(ex *Exec, fr *frame, a []Value) Value {
+		code := a[3]
+		if s, ok := code.(string); ok && strings.Contains(s, "@@syntax-error@@") {
+			return Tuple{(*Value)(nil), ex.newError("compile error")}
+		}
+		cell := Value(code)
+		return Tuple{&cell, Iface{}}
+	})
+	reg(rulioPath+"/core.RunJavascript", func(ex *Exec, fr *frame, a []Value) Value {
+		pkg := ex.w.pkgs[rulioPath+"/core"]
+		var fn *ssa.Function
+		if pkg != nil {
+			fn = pkg.Func("vhRunJS")
+		}
+		if fn == nil {
+			return &Opaque{"RunJavascript without a harness model (vhRunJS)"}
+		}
+		var code Value = ""
+		switch src := a[3].(type) {
+		case Iface:
+			if p, ok := src.V.(*Value); ok && p != nil {
+				code = *p
+			} else if s, ok := src.V.(string); ok {
+				code = s
+			}
+		}
+		return ex.call(fr, 0, fn, []Value{a[1], a[2], code})
+	})
+
 	// ---- sync ----
-	reg("(*sync.Mutex).Lock", func(ex *Exec, fr *frame, a []Value) Value { ex.mutexLock(fr.callerOr(), a[0].(*Value), true); return nil })
+	reg("(*sync.Mutex).Lock", func(ex *Exec, fr *frame, a []Value) Value {
+		ex.mutexLock(fr.callerOr(), a[0].(*Value), true)
+		return nil
+	})
 	reg("(*sync.Mutex).Unlock", func(ex *Exec, fr *frame, a []Value) Value {
 		ex.mutexUnlock(fr.callerOr(), a[0].(*Value), true)
 		return nil
@@ -175,7 +211,10 @@ func init() {
 		l.held, l.owner = true, ex.cur
 		return true
 	})
-	reg("(*sync.RWMutex).Lock", func(ex *Exec, fr *frame, a []Value) Value { ex.mutexLock(fr.callerOr(), a[0].(*Value), true); return nil })
+	reg("(*sync.RWMutex).Lock", func(ex *Exec, fr *frame, a []Value) Value {
+		ex.mutexLock(fr.callerOr(), a[0].(*Value), true)
+		return nil
+	})
 	reg("(*sync.RWMutex).Unlock", func(ex *Exec, fr *frame, a []Value) Value {
 		ex.mutexUnlock(fr.callerOr(), a[0].(*Value), true)
 		return nil
